@@ -54,6 +54,11 @@ CLAIMED = {
          "Every node of every skeleton (depth <=3) carries recording tests and PostTransforms; any two units range jointly over configuration x PostTransform configuration {one, none, two, first errors, second errors, first returns *ZogIssue} x input, under every field visit order, in Parse and Validate, with two WithCtxValue keys. The real invocation log (which callback, argument value, pointer vs value, ctx.Get values, order, count) must equal the model's; every pointer argument must be the address of a node of the destination; issues wrapping PostTransform errors must be at the node's path. Custom[int] and Preprocess[string,int] are exercised at top level, as field, as element and behind a pointer with ok / failing / wrongly-typed inputs and ok / erroring functions.",
          "Model rule for PostTransforms: node exit, declaration order, only while the execution has no issue. Preprocess.Validate is not asserted (different contract).",
          "DESIGN.md section 4 C12"),
+
+ "C11": ("complete enumeration of the finite issue catalogue x every formatter configuration on the real code; each issue's fields and message source/language checked",
+         "Every built-in test of every schema type (incl. all Not() forms), required / not_nil / coerce for every type, the front-end decode issues (invalid_json via zjson and zhttp, invalid_form) and Custom schema issues are produced on the real code at top level, as struct field and as slice element, in Parse and Validate, under the full product of test-level {none, Message, MessageFunc} x execution-level {none, WithIssueFormatter} x global {default formatter, i18n with default language en|es x context language unset|en|es|unknown x default|custom lang key}. Each issue must carry the documented code, the node's type, the test's parameter, a reference to the offending value, a non-empty message without {{placeholder}}, taken from the most specific level and in the context language if shipped, else the default language.",
+         "Expected text is rendered from the shipped maps by the harness. Bool True/False are only required to be complete, not to use a particular code. The catalogue is finite and enumerated completely; nothing beyond it is sampled.",
+         "DESIGN.md section 4 C11"),
 }
 NOT_YET = "check not built yet in this round (work in progress; see DESIGN.md section 4)"
 def main():
